@@ -13,7 +13,7 @@ import (
 func init() {
 	register("C18",
 		"whether the table values are the classical ones beyond the internal laws checked here; liveness of each declared input (an accessor that reads an input but ignores it).",
-		r18_1, r18_2, r18_3, r18_4, r18_5, r18_6, r11_2, r08_9)
+		r18_1, r18_2, r18_3, r18_4, r18_5, r18_6, r11_2, r08_9, r08_11)
 }
 
 func r18_1(c *Ctx, r *Report) {
